@@ -150,7 +150,10 @@ def corrupt(rng, kind):
         rx = rng.choice(BAD_REGEX[t])
         test = rng.choice(["-regex", "-iregex"])
         # the syntax is always named right in front: the valid part may contain a -regextype of its own
-        return v1 + ["-regextype", t, test, rx] + (v2 if rng.random() < 0.5 else [])
+        # (directly, or inside a parenthesised group that closes before the pattern: -regextype is positional, parentheses do not scope it)
+        named = rng.choice([["-regextype", t], ["-regextype", t], ["(", "-regextype", t, ")"], ["(", "-true", "-regextype", t, ")"],
+                            ["(", "(", "-regextype", t, ")", "-true", ")"]])
+        return v1 + named + [test, rx] + (v2 if rng.random() < 0.5 else [])
     if kind == "bad-exec":
         e = rng.choice(["-exec", "-execdir"])
         bad = rng.choice([[e], [e, common.REC], [e, common.REC, "{}"], [e, common.REC, "x", "{}", "y"], [e, ";"], [e, common.REC, "{}", "{}", "+"],
